@@ -291,6 +291,33 @@ fn enumerate_small(_: &Ctx) -> Box<dyn Iterator<Item = Case>> {
     for b in 0..=255u32 {
         v.push(Case { kind: 'M', region: Hex(gen::build_conformant_mbi(&[gen::ConfTag { kind: 8, n: 1, sel: b, key: 8 }], 0)) });
     }
+    // structures beyond the 16-bit marks: an ELF-sections tag that really holds
+    // 65600 headers (most of a type the crate does not know, a few in use), and
+    // well-formed boot informations of 64 KiB + 8 and 128 KiB
+    for es in [40usize, 64] {
+        let n = 65600usize;
+        let mut body = vec![0u8; 12 + n * es];
+        put32(&mut body, 0, n as u32);
+        put32(&mut body, 4, es as u32);
+        put32(&mut body, 8, 1);
+        for e in 0..n {
+            let t = if e % 9000 == 1 { 1 } else if e % 2 == 0 { 14 } else { 0x5000_0000 + e as u32 };
+            put32(&mut body, 12 + e * es + 4, t);
+        }
+        v.push(Case { kind: 'M', region: Hex(mb2_model::encode::mbi(&[mb2_model::encode::tag(9, &body)], 0, 0, true)) });
+    }
+    for total in [0x1_0008usize, 0x2_0000] {
+        let blob = vec![0xA7u8; 4080];
+        let mut tags: Vec<Vec<u8>> = Vec::new();
+        while 8 + (tags.len() + 1) * 4088 + 8 + 8 <= total {
+            tags.push(mb2_model::encode::tag(0x77, &blob));
+        }
+        let used = 8 + tags.len() * 4088 + 8;
+        if total > used + 8 {
+            tags.push(mb2_model::encode::tag(16, &vec![0x3Cu8; total - used - 8]));
+        }
+        v.push(Case { kind: 'M', region: Hex(mb2_model::encode::mbi(&tags, 0, 0, true)) });
+    }
     Box::new(v.into_iter())
 }
 
@@ -298,7 +325,7 @@ pub fn subs() -> Vec<Box<dyn Sub>> {
     vec![
         Box::new(PropSub::<Case> {
             name: "mbi",
-            rule: "boot-information inputs (adversarial generator of C01, conformant generator of C04, total-size words 0..=15, framebuffer tags with all type bytes) sent to four transcript servers built as {dev, release} x {default features, --no-default-features}; each serves the request in a forked child on guarded memory. Enumerated: total-size words 0..=40, header length words 0..=40 x 2 architectures, all 256 framebuffer type bytes. Oracle (differential): the four transcripts of load outcome / walk / getters / every stored field and extent are byte-identical (panic messages, addresses, Debug renderings and derived sums are not part of a transcript; a crash is the outcome CRASH). Non-trivial = decodes at least one tag, or is in a class {below-header size, unknown enum byte, count/size mismatch}; distinct by region hash",
+            rule: "boot-information inputs (adversarial generator of C01, conformant generator of C04, total-size words 0..=15, framebuffer tags with all type bytes) sent to four transcript servers built as {dev, release} x {default features, --no-default-features}; each serves the request in a forked child on guarded memory. Enumerated: total-size words 0..=40, header length words 0..=40 x 2 architectures, all 256 framebuffer type bytes, ELF-sections tags that really hold 65600 headers, well-formed boot informations of 64 KiB + 8 and 128 KiB. Oracle (differential): the four transcripts of load outcome / walk / getters / every stored field and extent are byte-identical (panic messages, addresses, Debug renderings and derived sums are not part of a transcript; a crash is the outcome CRASH). Non-trivial = decodes at least one tag, or is in a class {below-header size, unknown enum byte, count/size mismatch}; distinct by region hash",
             profiles: Profiles::ReleaseOnly,
             quick: 5000,
             thorough: 200000,
